@@ -1,6 +1,7 @@
 package rules
 
 import (
+	"strings"
 	"fmt"
 	"go/token"
 	"go/types"
@@ -383,7 +384,7 @@ func c01VerifyBeforeWrite(c *engine.Ctx, rule, ruleStored string) {
 					continue
 				}
 				fl, base := engine.LoadedField(ci.Common.Args[0])
-				okW := fl == blockF && base == head && guardHead(ci.Instr) == head
+				okW := fl == blockF && sameBase(base, head) && sameBase(guardHead(ci.Instr), head)
 				c.Decide(rule, key+"|"+ci.Common.Method.Name(), ci.Instr.Pos(), okW, "the bytes written are the verified head's block",
 					"bytes written to the store are not the block of the remote item whose CID was compared")
 			}
@@ -393,7 +394,7 @@ func c01VerifyBeforeWrite(c *engine.Ctx, rule, ruleStored string) {
 					continue
 				}
 				commitCall = ci.Value()
-				okC := guardHead(ci.Instr) == head && linkP != nil && engine.Strip(ci.Common.Args[0]) == ssa.Value(linkP)
+				okC := sameBase(guardHead(ci.Instr), head) && linkP != nil && engine.Strip(ci.Common.Args[0]) == ssa.Value(linkP)
 				c.Decide(rule, key+"|commit", ci.Instr.Pos(), okC, "the committer is given the requested link, after the comparison",
 					"the block is committed under something other than the requested link, or before the CID comparison")
 			}
@@ -404,7 +405,7 @@ func c01VerifyBeforeWrite(c *engine.Ctx, rule, ruleStored string) {
 				if fl != blockF {
 					continue
 				}
-				okR := base == head && guardHead(r) == head
+				okR := sameBase(base, head) && sameBase(guardHead(r), head)
 				c.Decide(rule, key+"|return-bytes", r.Pos(), okR, "remote bytes are handed to the traversal only after the comparison",
 					"remote bytes are returned to the traversal without the CID comparison")
 				if ruleStored != "" {
@@ -418,6 +419,19 @@ func c01VerifyBeforeWrite(c *engine.Ctx, rule, ruleStored string) {
 	if n == 0 {
 		c.AnchorMissing(rule, "a call through LinkSystem.StorageWriteOpener in requestmanager/...")
 	}
+}
+
+// sameBase: two ways of naming the remote item denote the same item (same SSA value, or the same access path
+// from a local that is assigned once — `dq.item` read twice).
+func sameBase(a, b ssa.Value) bool {
+	if a == nil || b == nil {
+		return false
+	}
+	if a == b || engine.SameValue(a, b) || engine.SameValue(engine.LocalValue(a), engine.LocalValue(b)) {
+		return true
+	}
+	pa, pb := engine.CanonPath(a), engine.CanonPath(b)
+	return pa == pb && !strings.HasPrefix(pa, "t")
 }
 
 func extractOf(call *ssa.Call, idx int) ssa.Value {
